@@ -60,7 +60,8 @@ def build(mesh, design=True):
 # random mesh descriptions
 # --------------------------------------------------------------------------------------------------------------------
 
-KM = [1, 5, 20, 30, 40, 40, 50, 60, 70, 80, 80, 80, 90, 100, 110, 120, 150]
+# 150 km and more are split by auto-design (split_fiber) into equal spans: the values below all split into whole-km spans
+KM = [1, 5, 20, 30, 40, 40, 50, 60, 70, 80, 80, 80, 90, 100, 110, 120, 150, 150, 160, 180, 200, 240, 300]
 
 
 def _spans(rng):
